@@ -32,7 +32,7 @@ import z3
 
 from . import interp as I
 from . import models as M
-from .values import (Internal, SBool, SEnum, SInt, SReal, Sym, SymEscape, Unsupported, has_sym,
+from .values import (SymBytes, Internal, SBool, SEnum, SInt, SReal, Sym, SymEscape, Unsupported, has_sym,
                      lift, lift_int, mk_bool, mk_int)
 
 VERIF_ROOT = os.path.dirname(os.path.dirname(os.path.abspath(__file__)))
@@ -97,6 +97,7 @@ class Registry:
 
 
 # ------------------------------------------------------------------ contexts
+_SYMS = (Sym, M.SymContainer, SymBytes)
 class _CtxBase:
     symbolic = False
 
@@ -146,11 +147,11 @@ class SymCtx(_CtxBase):
     symbolic = True
 
     # arithmetic / order on possibly symbolic scalars (contract expressions)
-    def add(self, a, b): return M.binop(self.it, _OPS["add"], a, b) if (isinstance(a, (Sym, M.SymContainer)) or isinstance(b, (Sym, M.SymContainer))) else a + b
-    def sub(self, a, b): return M.binop(self.it, _OPS["sub"], a, b) if (isinstance(a, (Sym, M.SymContainer)) or isinstance(b, (Sym, M.SymContainer))) else a - b
-    def mul(self, a, b): return M.binop(self.it, _OPS["mul"], a, b) if (isinstance(a, (Sym, M.SymContainer)) or isinstance(b, (Sym, M.SymContainer))) else a * b
-    def floordiv(self, a, b): return M.binop(self.it, _OPS["floordiv"], a, b) if (isinstance(a, (Sym, M.SymContainer)) or isinstance(b, (Sym, M.SymContainer))) else a // b
-    def mod(self, a, b): return M.binop(self.it, _OPS["mod"], a, b) if (isinstance(a, (Sym, M.SymContainer)) or isinstance(b, (Sym, M.SymContainer))) else a % b
+    def add(self, a, b): return M.binop(self.it, _OPS["add"], a, b) if (isinstance(a, _SYMS) or isinstance(b, _SYMS)) else a + b
+    def sub(self, a, b): return M.binop(self.it, _OPS["sub"], a, b) if (isinstance(a, _SYMS) or isinstance(b, _SYMS)) else a - b
+    def mul(self, a, b): return M.binop(self.it, _OPS["mul"], a, b) if (isinstance(a, _SYMS) or isinstance(b, _SYMS)) else a * b
+    def floordiv(self, a, b): return M.binop(self.it, _OPS["floordiv"], a, b) if (isinstance(a, _SYMS) or isinstance(b, _SYMS)) else a // b
+    def mod(self, a, b): return M.binop(self.it, _OPS["mod"], a, b) if (isinstance(a, _SYMS) or isinstance(b, _SYMS)) else a % b
     def lt(self, a, b): return M.order(self.it, _CMP["lt"], a, b)
     def le(self, a, b): return M.order(self.it, _CMP["le"], a, b)
     def gt(self, a, b): return M.order(self.it, _CMP["gt"], a, b)
